@@ -332,6 +332,24 @@ pub fn scenario(g: &mut G, ctx: &RunCtx) -> RunReport {
         if let Some(v) = &np_upper {
             sim.set_env("NO_PROXY", v);
         }
+        // (no draw) the rest of a process's environment: a CGI or server process (REQUEST_METHOD and its kin), a
+        // shell (HOME, PATH), other tools' proxy-ish names.  None of them is one of the nine names the statement
+        // gives a meaning to
+        match url_s.len() % 4 {
+            0 => {
+                for (k, v) in [("REQUEST_METHOD", "GET"), ("GATEWAY_INTERFACE", "CGI/1.1"), ("SERVER_NAME", "www.example"), ("REQUEST_URI", "/cgi-bin/fetch")] {
+                    sim.set_env(k, v);
+                }
+                g.probe("environment-of-a-cgi-process");
+            }
+            1 => {
+                for (k, v) in [("HOME", "/root"), ("PATH", "/usr/bin"), ("FTP_PROXY", "http://ftp-proxy.test:21"), ("RSYNC_PROXY", "r.test:873"), ("CURL_HOME", "/root"), ("NO_PROXY_HOSTS", "*"), ("PROXY", "http://any.test:1")] {
+                    sim.set_env(k, v);
+                }
+                g.probe("environment-with-other-tools-proxy-names");
+            }
+            _ => {}
+        }
         // observation 2: a request that takes its proxy settings from the environment by default (free
         // function or a fresh session) - the peer it dials.  Nothing listens; the dial is what counts.
         let origin_ip: IpAddr = "10.0.1.1".parse().unwrap();
